@@ -144,7 +144,6 @@ def run_check(prop, tier, seed, t0, a):
             continue
         if out['error']:
             undecided.append(f'{key}: {out["error"]}')
-            continue
         assumed.update(out['assumed'])
         names = set()
         for r in out['results']:
